@@ -142,7 +142,7 @@ func VerifC13View() {
 		l.headers = append(l.headers, [2]string{"X-Custom", "second"})
 	}
 	// cookies
-	l.cookie = []string{"", "session=abc", "a=1; session=c2Vzc2lvbi1pZA==; b=2", "session=\"quoted\"", " session = spaced ", "other=1"}[verifapi.NondetChoice("cookie", 6)]
+	l.cookie = []string{"", "session=abc", "a=1; session=c2Vzc2lvbi1pZA==; b=2", "session=\"quoted\"", " session = spaced ", "other=1", "session=first; theme=dark; session=second"}[verifapi.NondetChoice("cookie", 7)]
 	// body
 	switch verifapi.NondetChoice("body", 4) {
 	case 1:
